@@ -118,7 +118,8 @@ func genConforming(r *rng.R, name string) c12case {
 	nmsg := r.Range(1, 5)
 	var todo []*pend
 	for i := 0; i < nmsg; i++ {
-		pl := r.Bytes(r.Pick(0, 1, 5, 17, 40, r.Intn(int(c.MS)-40)))
+		// svcBody adds 34 bytes: payloads that put the body exactly at, or a few bytes below, MaxMessageSize
+		pl := r.Bytes(r.Pick(0, 1, 5, 17, 40, r.Intn(int(c.MS)-40), int(c.MS)-34, int(c.MS)-35, int(c.MS)-34-r.Intn(30)))
 		body := svcBody(uint32(100+i), pl)
 		if len(body) > int(c.MS) {
 			body = svcBody(uint32(100+i), pl[:0])
